@@ -3,6 +3,7 @@ package rt
 import (
 	"encoding/json"
 	"fmt"
+	"regexp"
 	"math/rand"
 	"os"
 	"path/filepath"
@@ -92,6 +93,49 @@ func methodShape(src, method string) (has, raw, addl bool) {
 	return true, strings.Contains(body, "var raw map[string]interface{}"), strings.Contains(body, "mapstructure.Decode(raw")
 }
 
+type callMeta struct {
+	text, fmt, prior string
+}
+
+// subValues collects the distinct JSON sub-values of the documents (compact text), at most max.
+func subValues(texts []string, max int) []string {
+	seen := map[string]bool{}
+	var out []string
+	var walk func(v any)
+	walk = func(v any) {
+		if len(out) >= max {
+			return
+		}
+		b, err := json.Marshal(v)
+		if err == nil && !seen[string(b)] {
+			seen[string(b)] = true
+			out = append(out, string(b))
+		}
+		switch x := v.(type) {
+		case []any:
+			for _, e := range x {
+				walk(e)
+			}
+		case map[string]any:
+			for _, e := range x {
+				walk(e)
+			}
+		}
+	}
+	for _, t := range texts {
+		var v any
+		d := json.NewDecoder(strings.NewReader(t))
+		d.UseNumber()
+		if d.Decode(&v) == nil {
+			walk(v)
+		}
+	}
+	if len(out) == 0 {
+		out = []string{"null"}
+	}
+	return out
+}
+
 type totalCall struct {
 	RawNil   bool `json:"rawNil"`
 	Err      bool `json:"err"`
@@ -146,10 +190,8 @@ func RunTotal(f *Family, tier string) int {
 	}
 	rng := rand.New(rand.NewSource(seed))
 	_ = rng
-	type callMeta struct {
-		text, fmt, prior string
-	}
 	metas := map[*Unit][]callMeta{}
+	var metaOf func(e *Exec, ci int) callMeta
 	f.ForceExtraImports = true
 	f.Calls = nil
 	// calls are defined per unit after concretisation: use a wrapper around Execute's default by
@@ -223,6 +265,7 @@ func RunTotal(f *Family, tier string) int {
 		meth string
 	}
 	var backs []back
+	nestedMetas := map[*Exec][]callMeta{}
 	unobs, nomethod, ncalls := 0, 0, 0
 	for _, e := range execs {
 		if !e.Built || e.Out == nil || e.Out.Miss {
@@ -261,8 +304,89 @@ func RunTotal(f *Family, tier string) int {
 			nomethod++
 		}
 	}
+	// --- second pass: every OTHER generated type with an UnmarshalJSON method (nested objects, anyOf branch
+	// types, enums, declared maps), called directly on sub-values of the unit's documents ---
+	{
+		reRecv := regexp.MustCompile(`(?m)^func \(j \*(\w+)\) UnmarshalJSON\(`)
+		var progs []work.Prog
+		var jobs []work.RunJob
+		type nested struct {
+			e     *Exec
+			typ   string
+			calls []work.Call
+			raw   bool
+			addl  bool
+		}
+		byKey := map[string]*nested{}
+		for ei, e := range execs {
+			if !e.Built || e.Out == nil || e.Out.Miss {
+				continue
+			}
+			srcb, _ := os.ReadFile(e.Source)
+			src := string(srcb)
+			subs := subValues(e.Texts, 40)
+			for _, m := range reRecv.FindAllStringSubmatch(src, -1) {
+				t := m[1]
+				if t == "RootJson" {
+					continue
+				}
+				key := fmt.Sprintf("%d/%s", ei, t)
+				_, raw, addl := methodShape(strings.Replace(src, "func (j *"+t+") ", "func (j *RootJson) ", -1), "UnmarshalJSON")
+				n := &nested{e: e, typ: t, raw: raw, addl: addl}
+				for i, sv := range subs {
+					n.calls = append(n.calls, work.Call{Text: sv, Fmt: "jsondirect"})
+					n.calls = append(n.calls, work.Call{Text: sv, Fmt: "jsondirect", Prior: subs[(i+1)%len(subs)]})
+				}
+				byKey[key] = n
+				progs = append(progs, work.Prog{Key: key, PkgPath: "gen/" + e.ProgID, Type: t})
+				jobs = append(jobs, work.RunJob{Unit: key, Prog: key, Calls: n.calls})
+			}
+		}
+		const shard = 300
+		for lo := 0; lo < len(progs); lo += shard {
+			hi := lo + shard
+			if hi > len(progs) {
+				hi = len(progs)
+			}
+			bin, err := sc.BuildRunner(fmt.Sprintf("runner_n_%d", lo/shard), progs[lo:hi])
+			if err != nil {
+				return infra(f.Prop, err)
+			}
+			outs, err := sc.Run(bin, jobs[lo:hi])
+			if err != nil {
+				return infra(f.Prop, err)
+			}
+			for key, o := range outs {
+				n := byKey[key]
+				if n == nil || o.Miss || len(o.Res) != len(n.calls) {
+					continue
+				}
+				ev := totalEvent{HasRaw: n.raw, HasAddl: n.addl}
+				// a synthetic Exec so that reports can point at the nested type's calls
+				ne := &Exec{Unit: n.e.Unit, ProgID: n.e.ProgID, Schema: n.e.Schema + "  [type " + n.typ + "]", Out: o}
+				bk := back{e: ne, meth: n.typ + ".UnmarshalJSON"}
+				var ms []callMeta
+				for ci, c := range n.calls {
+					r := o.Res[ci]
+					ev.Calls = append(ev.Calls, totalCall{RawNil: strings.TrimSpace(c.Text) == "null", Err: r.Err, Panicked: r.Panic, Changed: !r.Unchanged})
+					bk.idx = append(bk.idx, ci)
+					ms = append(ms, callMeta{c.Text, c.Fmt, c.Prior})
+					ncalls++
+				}
+				nestedMetas[ne] = ms
+				events = append(events, ev)
+				backs = append(backs, bk)
+			}
+		}
+	}
 	if len(events) == 0 {
 		return infra(f.Prop, fmt.Errorf("no generated unmarshal method could be observed (%d units, %d unobservable)", len(execs), unobs))
+	}
+	metaOf = func(e *Exec, ci int) callMeta {
+		if ms, ok := nestedMetas[e]; ok {
+			return ms[ci]
+		}
+		return metas[e.Unit][ci]
 	}
 	tVal := time.Now()
 	reports, tally, tr, err := ValidateWith(sc, "tv", "Trace_C19", "  TableFile = \"table.ndjson\"\n", map[string]string{"table.ndjson": table}, events)
@@ -279,7 +403,7 @@ func RunTotal(f *Family, tier string) int {
 	for _, r := range reports {
 		bk := backs[r.L-1]
 		ci := bk.idx[r.I-1]
-		m := metas[bk.e.Unit][ci]
+		m := metaOf(bk.e, ci)
 		res := bk.e.Out.Res[ci]
 		if logf != nil {
 			b, _ := json.Marshal(map[string]any{"class": r.Class, "method": bk.meth, "schema": bk.e.Schema, "input": m.text, "prior": m.prior,
@@ -313,7 +437,7 @@ func RunTotal(f *Family, tier string) int {
 		if k >= 0 && k < len(backs) {
 			bk := backs[k]
 			ci := bk.idx[len(bk.idx)/2]
-			m := metas[bk.e.Unit][ci]
+			m := metaOf(bk.e, ci)
 			res := bk.e.Out.Res[ci]
 			samples = append(samples, map[string]any{"schema": bk.e.Schema, "method": bk.meth, "input": m.text, "prior": m.prior,
 				"error": res.Err, "panicked": res.Panic, "destination_unchanged": res.Unchanged})
